@@ -957,6 +957,7 @@ pub fn removal_set() -> BoxedStrategy<Vec<Pos>> {
     prop_oneof![
         10 => proptest::collection::vec(pos_in_range(), 0..6),
         1 => proptest::collection::vec(pos_any(), 1..4),
+        1 => proptest::collection::vec(pos_in_range(), 20..60),
     ]
     .boxed()
 }
